@@ -103,12 +103,16 @@ uint64_t __gmpz_get_ui(mpz_m *z) {
 uint64_t __gmpz_get_si(mpz_m *z) {
   gz_t v = gz_get(z); ugz_t a = (ugz_t)(v < 0 ? -v : v);
 #ifdef IR2C_SCALE
-  unsigned __CPROVER_bitvector[GZ_W64] lo = (unsigned __CPROVER_bitvector[GZ_W64])(a & (ugz_t)(GZ_POW(GZ_W64 - 1) - 1));
-  if (v < 0) lo = (unsigned __CPROVER_bitvector[GZ_W64])(0 - lo);
+  /* GMP: size>0: zl & LONG_MAX ; size<0: -1 - ((zl-1) & LONG_MAX) */
+  unsigned __CPROVER_bitvector[GZ_W64] m = (unsigned __CPROVER_bitvector[GZ_W64])(GZ_POW(GZ_W64 - 1) - 1);
+  unsigned __CPROVER_bitvector[GZ_W64] lo = (unsigned __CPROVER_bitvector[GZ_W64])a;
+  if (v > 0) lo = lo & m; else if (v < 0) lo = (unsigned __CPROVER_bitvector[GZ_W64])(0 - 1 - ((lo - 1) & m));
   return (uint64_t)lo;
 #else
-  uint64_t lo = (uint64_t)a & 0x7fffffffffffffffULL;
-  return v < 0 ? (uint64_t)0 - lo : lo;
+  uint64_t lo = (uint64_t)a;
+  if (v > 0) return lo & 0x7fffffffffffffffULL;
+  if (v < 0) return (uint64_t)0 - 1 - ((lo - 1) & 0x7fffffffffffffffULL);
+  return 0;
 #endif
 }
 
